@@ -32,6 +32,7 @@ extern int mpt_connection_open(MPT_STRUCT(connection) *con, const char *to, cons
 	MPT_STRUCT(fdmode) mode;
 	MPT_STRUCT(socket) tmp = MPT_SOCKET_INIT;
 	MPT_STRUCT(stream) *srm = 0;
+	MPT_STRUCT(buffer) *old;
 	int flg = 0, ret;
 	
 	if (con->out.state & MPT_OUTFLAG(Active)) {
@@ -75,7 +76,13 @@ extern int mpt_connection_open(MPT_STRUCT(connection) *con, const char *to, cons
 		*srm = s;
 	}
 	/* close old connection */
+	old = MPT_socket_active(&con->out.sock) ? 0 : con->out.buf._buf;
 	mpt_connection_close(con);
+	/* stream data of old connection */
+	if (old) {
+		free(old);
+		con->out.buf._buf = 0;
+	}
 	
 	/* set new connection parameters */
 	if (srm) {
